@@ -57,6 +57,8 @@ def generate(seed, tier, cfg):
     asc = gen.gen_score(st.workload, profile=("kernmei" if fmt == "kern" else ("mei2" if cfg == "mei-in" else "mei")) if rich else "simple", size=gen.pick_size(tier, st.knobs))
     if cfg == "mei-in" and k.random() < 0.06:
         asc = tiny_compound(k)
+    if cfg == "kern-in" and k.random() < 0.05:
+        asc = tiny_breve(k)
     mid = False
     if cfg.endswith("-rt") and rich and k.random() < 0.5:
         # middle level: the full subset minus what the writers are known not to handle (ties, grace notes,
@@ -143,8 +145,11 @@ def loaded_by_staff(score):
     """{staff number: sorted [(onset_q, dur_q, step, alter, octave, grace)]} with ties joined, plus per-part info"""
     import partitura.score as S
 
+    import numpy as np
+
     out = {}
     info = {}
+    nonint = info.setdefault("_nonint", [])
     for part in score.parts:
         q = int(part._quarter_durations[0])
         if len(part._quarter_durations) != 1:
@@ -154,9 +159,23 @@ def loaded_by_staff(score):
                 continue
             grace = isinstance(n, S.GraceNote)
             qq = int(part.quarter_duration_map(n.start.t))
-            out.setdefault(n.staff, []).append((F(n.start.t, qq), F(0) if grace else F(n.duration_tied, qq), n.step, n.alter or 0, n.octave, grace))
+            if not all(isinstance(x, (int, np.integer)) for x in (n.start.t, n.duration_tied)):
+                nonint.append((n.id, n.start.t, n.duration_tied))
+            out.setdefault(n.staff, []).append((F(n.start.t) / qq, F(0) if grace else F(n.duration_tied) / qq, n.step, n.alter or 0, n.octave, grace))
             info.setdefault(n.staff, part)
     return {k: sorted(v, key=repr) for k, v in out.items()}, info
+
+
+def spelled_pitch_mismatch(score):
+    """first (step, alter, octave, midi_pitch, denoted) whose MIDI pitch is not the one its spelling denotes, or None"""
+    import partitura.score as S
+
+    for part in score.parts:
+        for n in part.iter_all(S.Note, include_subclasses=True):
+            want = gen.midi_pitch(n.step, n.alter or 0, n.octave)
+            if int(n.midi_pitch) != want:
+                return (n.step, n.alter or 0, n.octave, int(n.midi_pitch), want)
+    return None
 
 
 def voices_by_note(score, staff):
@@ -318,6 +337,12 @@ def run_in(res, fs, asc, kn, fmt, path, faults, shape):
         res.violation("N0-load-raised", "load", "%s file of the supported subset could not be loaded over route %s: %s: %s" % (fmt, kn["route"], type(err).__name__, err), site=site[-1].name if site else type(err).__name__)
         return
     got, info = loaded_by_staff(score)
+    if info.pop("_nonint"):
+        res.probe("float_time_points")
+    bad = spelled_pitch_mismatch(score)
+    if bad:
+        res.violation("N4-pitch", "load", "%s: a loaded note spelled %s%+d in octave %d has MIDI pitch %d, its spelling denotes %d" % ((fmt,) + bad), site="spelling:" + ("wrap" if (bad[0], bad[1] > 0) in (("B", True), ("C", False)) else "other"))
+        return
     if fmt == "kern":
         # several spines may share a staff (one spine per voice): their notes are compared together, and each spine is
         # a voice of its own
@@ -478,6 +503,25 @@ def tiny_compound(k):
         "id": "P1", "name": "Part P1", "abbr": None, "qdivs": [[0, q]], "nstaves": 1, "end": nm * L,
         "measures": [{"s": m * L, "e": (m + 1) * L, "number": m + 1, "name": str(m + 1)} for m in range(nm)],
         "timesigs": [{"t": 0, "beats": beats, "beat_type": 8}], "keysigs": [{"t": 0, "fifths": 0, "mode": None}],
+        "clefs": [{"t": 0, "staff": 1, "sign": "G", "line": 2, "oct": 0}],
+        "notes": notes, "slurs": [], "tuplets": [], "dirs": [], "tempos": [], "repeats": [], "endings": [], "nav": [], "fermatas": [],
+    }
+    return {"id": None, "parts": [part], "groups": None}
+
+
+def tiny_breve(k):
+    """a boundary score in a meter of half notes whose measures hold a breve: plain (4/2), dotted (6/2), double-dotted (7/2),
+    or a long (8/2)"""
+    beats, sym = k.choice(((4, {"type": "breve", "dots": 0}), (6, {"type": "breve", "dots": 1}), (7, {"type": "breve", "dots": 2}), (7, {"type": "breve", "dots": 2}), (8, {"type": "long", "dots": 0})))
+    q = k.choice((1, 2, 4))
+    L = 2 * beats * q
+    nm = 3
+    kinds = [k.choice(("note", "note", "rest")) for _ in range(nm)]
+    notes = [{"id": "p1n%d" % (m + 1), "kind": kinds[m], "t": m * L, "e": (m + 1) * L, "voice": 1, "staff": 1, "sym": dict(sym), "m": m, "g": None, "step": "CDE"[m] if kinds[m] == "note" else None, "alter": None, "octave": 4 if kinds[m] == "note" else None} for m in range(nm)]
+    part = {
+        "id": "P1", "name": "Part P1", "abbr": None, "qdivs": [[0, q]], "nstaves": 1, "end": nm * L,
+        "measures": [{"s": m * L, "e": (m + 1) * L, "number": m + 1, "name": str(m + 1)} for m in range(nm)],
+        "timesigs": [{"t": 0, "beats": beats, "beat_type": 2}], "keysigs": [{"t": 0, "fifths": 0, "mode": None}],
         "clefs": [{"t": 0, "staff": 1, "sign": "G", "line": 2, "oct": 0}],
         "notes": notes, "slurs": [], "tuplets": [], "dirs": [], "tempos": [], "repeats": [], "endings": [], "nav": [], "fermatas": [],
     }
